@@ -44,7 +44,7 @@ CHECK_DEADLOCK FALSE
 
 def replay_and_judge(chk, vectors):
     text = "\n".join(json.dumps(v) for v in vectors) + "\n"
-    out = chk.vh(["c06-replay"], stdin=text, timeout=1800)
+    out = chk.vh(["c06-replay"], stdin=text, timeout=420)
     obs = [json.loads(x) for x in out.splitlines() if x.strip()]
     if len(obs) != len(vectors):
         raise vlib.Inconclusive("replay returned %d observations for %d vectors" % (len(obs), len(vectors)))
@@ -86,10 +86,10 @@ def run(chk, replay):
         chk.model_ok(res, "Lattice3Scan")
     # ---- M + R: exact scenes
     n = 400 if chk.tier == "quick" else 2500
-    dims = (30405, 50304, 31010, 21515)
+    dims = (30405, 50304, 20808, 21808)   # 8x8 -> 100 points per layer, 18x8 -> 200: exact multiples of the batch size
     allvec, flagged = [], []
     plans = []
-    for fam in ("plane", "box2", "box"):
+    for fam, dims in (("plane", dims), ("box2", dims), ("box", dims), ("plane", (31010, 21515, 40305, 30808))):
         res = chk.tlc("UniformM", cfg_text=UNI_CFG % ((fam, n if fam != "box" else n // 2, chk.seed % 60000) + dims),
                       timeout=3000, extra=["-continue"], name="UniformM " + fam)
         mb = res.printed_json("MODELBAD")
@@ -97,7 +97,7 @@ def run(chk, replay):
             raise vlib.Inconclusive("UniformM failed without a MODELBAD scene: %s\n%s" % (res.violated, res.out[-2000:]))
         vec = res.printed_json("VEC") + [dict(dims=m["dims"], k=m["scene"]["k"], parts=m["scene"]["parts"]) for m in mb]
         flagged += mb
-        plans.append(dict(family=fam, scenes=len(vec), model_flagged=len(mb)))
+        plans.append(dict(family=fam, dims=dims, scenes=len(vec), model_flagged=len(mb)))
         allvec += vec
     obs, bad = replay_and_judge(chk, allvec)
     chk.traces += len(obs)
@@ -117,6 +117,19 @@ def run(chk, replay):
     multi = sum(1 for o in obs if (o["dims"][1] + 2) * (o["dims"][2] + 2) > 100)
     for o in obs[:1200:300]:
         chk.sample(dict(dims=o["dims"], scene=o["scene"], triangles=len(o["tris"]), first=o["tris"][:1]))
+    # ---- all 256 sign configurations: every triangle's normal agrees with the (discrete) gradient
+    wcfg = ("SPECIFICATION Spec\nCONSTANT DX = 2\nCONSTANT DY = 2\nCONSTANT DZ = 2\nCONSTANT Base = 2\nCONSTANT LoDigits = 4\n"
+            "CONSTANT Emit = TRUE\nCONSTANT Sample = 0\nCONSTANT Seed = 1\nINVARIANT StaticOK\nINVARIANT WorldOK\nCHECK_DEADLOCK FALSE\n")
+    res = chk.tlc("MarchCubes", cfg_text=wcfg, timeout=900, extra=["-continue"], name="MarchCubes 2x2x2 sign worlds (orientation)")
+    wvec = [dict(dims=[2, 2, 2], base=2, code=int(raw.split(",")[0])) for raw in res.printed("VEC") + res.printed("MODELBAD")]
+    wout = chk.vh(["c05-replay", "mcu", "mco"], stdin="\n".join(json.dumps(v) for v in wvec) + "\n", timeout=600)
+    wobs = [json.loads(x) for x in wout.splitlines() if x.strip()]
+    for e, why in chk.validate("MeshTrace", wobs, chunks=2, timeout=900):
+        chk.violation("world:%s:2x2x2:b2:%d:%s" % (e["r"], e["code"], why),
+                      "real %s mesh of sign world %d rejected: %s" % (e["r"], e["code"], why),
+                      dict(kind="world", vector=dict(dims=[2, 2, 2], base=2, code=e["code"]), renderer=e["r"]))
+    chk.traces += len(wobs)
+    chk.cov["sign_worlds_judged_for_orientation"] = len(wobs)
     # ---- T: measured numerics
     out = chk.vh(["c06-measure"], timeout=1800)
     meas = [json.loads(x) for x in out.splitlines() if x.strip()]
